@@ -189,8 +189,10 @@ class EdgeQLSourceGenerator(codegen.SourceGenerator):
                     self.new_lines += 1
             self.indentation -= 1
             self.new_lines = 1
+        elif '\n' in text or '#' in text:
+            self.write('\n', text, '\n')
         else:
-            self.write(' ', text, ' ')
+            self.write(text)
         self.write('}')
 
     def _visit_aliases(self, node: qlast.Statement) -> None:
@@ -2202,7 +2204,7 @@ class EdgeQLSourceGenerator(codegen.SourceGenerator):
                     op_str += f'({",".join(types)})'
                 self.write(f'{op_str!r}', ';')
             if node.code.from_function:
-                from_clause = f'USING {node.code.language} OPERATOR '
+                from_clause = f'USING {node.code.language} FUNCTION '
                 self._write_keywords(from_clause)
                 op, *types = node.code.from_function
                 op_str = op
@@ -2298,7 +2300,9 @@ class EdgeQLSourceGenerator(codegen.SourceGenerator):
         else:
             from_clause = f'USING {node.code.language} '
             self._write_keywords(from_clause)
-            if node.code.code:
+            if node.code.from_expr:
+                self._write_keywords('EXPRESSION')
+            elif node.code.code:
                 self.write(edgeql_quote.dollar_quote_literal(
                     node.code.code))
 
@@ -2365,24 +2369,27 @@ class EdgeQLSourceGenerator(codegen.SourceGenerator):
                 self.visit_list(commands, terminator=';')
                 self.new_lines = 1
 
-            from_clause = f'USING {node.code.language} '
-            code = ''
-
+            # The grammar accepts a FUNCTION clause together with a
+            # code clause; print every clause that is present.
+            clauses = []
             if node.code.from_function:
-                from_clause += 'FUNCTION'
-                code = f'{node.code.from_function!r}'
-            elif node.code.from_cast:
-                from_clause += 'CAST'
-            elif node.code.from_expr:
-                from_clause += 'EXPRESSION'
-            elif node.code.code:
-                code = edgeql_quote.dollar_quote_literal(node.code.code)
+                clauses.append(('FUNCTION', f'{node.code.from_function!r}'))
+            if node.code.from_cast:
+                clauses.append(('CAST', ''))
+            if node.code.from_expr:
+                clauses.append(('EXPRESSION', ''))
+            if node.code.code:
+                clauses.append(
+                    ('', edgeql_quote.dollar_quote_literal(node.code.code)))
+            if not clauses:
+                clauses.append(('', ''))
 
-            self._write_keywords(from_clause)
-            if code:
-                self.write(' ', code)
-            self.write(';')
-            self.new_lines = 1
+            for kw, code in clauses:
+                self._write_keywords(f'USING {node.code.language} {kw}')
+                if code:
+                    self.write(' ' if kw else '', code)
+                self.write(';')
+                self.new_lines = 1
 
             if node.allow_assignment:
                 self._write_keywords('ALLOW ASSIGNMENT;')
